@@ -31,15 +31,18 @@ def mexpr(fr):
     return s + (" / au::mag<%dULL>()" % fr.denominator if fr.denominator != 1 else "")
 
 
-def generated(tag, base, m, o_unit, o_val):
-    """struct deriving from base*m with origin() = o_val * (base * o_unit)."""
+def generated(tag, base, m, o_unit, o_val, unsigned_origin=False, int_origin=False):
+    """struct deriving from base*m with origin() = o_val * (base * o_unit); the origin's rep is
+    long long, or unsigned (o_val >= 0 only) - a user is free to write `kelvins(5u)`."""
     name = "G%s" % tag
     if o_unit is None:
         defs = "struct %s : decltype(%s{} * (%s)) {};" % (name, base, mexpr(m))
         return PUnit(name, name, defs, m, 0)
-    defs = ("struct %s : decltype(%s{} * (%s)) { static constexpr auto origin() { return au::make_quantity<decltype(%s{} * (%s))>(%dLL); } };"
-            % (name, base, mexpr(m), base, mexpr(o_unit), o_val))
-    return PUnit(name, name, defs, m, Fraction(o_unit) * o_val, Fraction(o_unit), o_val, "long long")
+    assert not (unsigned_origin and o_val < 0)
+    defs = ("struct %s : decltype(%s{} * (%s)) { static constexpr auto origin() { return au::make_quantity<decltype(%s{} * (%s))>(%d%s); } };"
+            % (name, base, mexpr(m), base, mexpr(o_unit), o_val, "u" if unsigned_origin else "" if int_origin else "LL"))
+    pu = PUnit(name, name, defs, m, Fraction(o_unit) * o_val, Fraction(o_unit), o_val, "unsigned" if unsigned_origin else "int" if int_origin else "long long")
+    return pu
 
 
 def read_library(ctx):
